@@ -153,8 +153,9 @@ class P:
         return out
 
     # -- recognised as a whole -------------------------------------------------------------------------------------------
-    DATA_ALLOC = re.compile(r"\{data=\(Item\*\*\)newchar\[sizeof\(Item\*\)\*capacity\];"
-                            r"Memory::zero\(data,sizeof\(Item\*\)\*capacity\);\}")
+    _BYTES = r"(?:sizeof\(Item\*\)\*capacity|capacity\*sizeof\(Item\*\))"
+    DATA_ALLOC = re.compile(r"\{data=\(Item\*\*\)newchar\[" + _BYTES + r"\];"
+                            r"(?:Memory::zero\(data," + _BYTES + r"\)|Memory::fill\(data,0," + _BYTES + r"\));\}")
     BLOCK_FIRST = re.compile(r"\{ItemBlock\*(?P<b>\w+)=\(ItemBlock\*\)newchar\[sizeof\(ItemBlock\)\+sizeof\(Item\)\*(?P<n>\w+)\];"
                              r"(?P=b)->next=blocks;blocks=(?P=b);"
                              r"(?P<x>\w+)=\(Item\*\)\(\(char\*\)(?P=b)\+sizeof\(ItemBlock\)\);"
